@@ -3,10 +3,12 @@
 cd "$(dirname "$0")/.."
 SEEDS=${SEEDS:-"2 3 4 5 6"}
 TIER=${TIER:-quick}
+bad=0
 for s in $SEEDS; do
   for c in C01 C02 C03 C04 C05 C06 C07 C08 C09 C10 C11 C12 C13 C14 C15 C16 C17 C18 C19 C20; do
     out=$(VERIF_SEED=$s ./vcheck $c --tier $TIER 2>&1); rc=$?
     echo "seed=$s $c rc=$rc $(echo "$out" | tail -1)"
-    [ $rc -ne 0 ] && echo "$out" | head -20
+    if [ $rc -ne 0 ]; then bad=1; echo "$out" | head -20; fi
   done
 done
+exit $bad
